@@ -247,7 +247,7 @@ class Unit:
            ctx_ok_or=(), external_body=False, props=None, safety_props=None, which=0,
            canary=False, rename=None, mode_exec=True, opens_invariants=None, no_unwind=False,
            sig_rewrites=(), header_attrs=(), assume_termination=False, container=None, bare=False,
-           no_body=False, ctx_sites=(), impl_which=0, synth=None, tail_proof=None, proof_label=None, transform=None, head_proof=None, opt_rewrites=(), asserts=()):
+           no_body=False, ctx_sites=(), impl_which=0, synth=None, tail_proof=None, proof_label=None, transform=None, head_proof=None, opt_rewrites=(), asserts=(), trait_impl=False):
         """cut a function from /repo and splice a contract in.
 
         key: 'Type::name' or 'name'.  impl: regex of the impl header type (default = Type from key).
@@ -300,7 +300,7 @@ class Unit:
             if n == 0:
                 raise CutError(f'{relpath}: fn {key}: signature rewrite /{pat}/ no longer matches')
             self.drop(f'fn {key} signature: /{pat}/ -> {rep!r}', n)
-        if not sig.startswith('pub') and not container:
+        if not sig.startswith('pub') and not container and not trait_impl:
             sig = 'pub ' + sig
         sig = self._name_return(sig, ret)
 
